@@ -285,7 +285,7 @@ func (p *Program) ruleConvexFSM(c *Check) {
 		n    int
 	}
 	type state struct {
-		vals           string // encoded
+		vals             string // encoded
 		seenPos, seenNeg bool
 	}
 	enc := func(vs []stval) string {
